@@ -97,7 +97,7 @@ func (w *world) newControllerFn(name string, _ manager.Manager, _ kcontroller.Op
 	w.y.yield("NewControllerFn " + name)
 	w.mu.Lock()
 	defer w.mu.Unlock()
-	fc := &fakeController{name: name, y: w.y, failing: w.failNext[name]}
+	fc := &fakeController{name: name, y: w.y, failing: w.failNext[name], quit: make(chan struct{})}
 	w.failNext[name] = false
 	w.instances_[name] = append(w.instances_[name], fc)
 	return fc, nil
@@ -215,6 +215,29 @@ func (w *world) exec(o op) string {
 	return "?"
 }
 
+// cleanup stops every controller so that a finished case leaves no goroutines behind (20 000 cases per shard
+// in the thorough tier would otherwise accumulate blocked controller goroutines until the process is killed).
+func (w *world) cleanup() {
+	w.y.mu.Lock()
+	w.y.enabled = false
+	w.y.mu.Unlock()
+	w.cache.mu.Lock()
+	w.cache.failGet = map[schema.GroupVersionKind]int{}
+	w.cache.failRemove = map[schema.GroupVersionKind]int{}
+	w.cache.mu.Unlock()
+	for _, c := range ctrlNames {
+		_ = w.eng.Stop(context.Background(), c)
+	}
+	// instances that were created but are no longer tracked by the engine (seeded defects may orphan them)
+	w.mu.Lock()
+	for _, l := range w.instances_ {
+		for _, fc := range l {
+			fc.abandon()
+		}
+	}
+	w.mu.Unlock()
+}
+
 // seedXRs stores XRs of the controller's kind referencing the given composed kinds.
 func (w *world) seedXRs(ctrl string, refs [][]string) {
 	for i, kinds := range refs {
@@ -306,6 +329,7 @@ func TestVerifC13Sequential(t *testing.T) {
 	rec := verifkit.New(t, "C13", "single-goroutine op sequences over 2 controllers x 6 watches against an exact model (running set, watch set) and live handler registrations on recording informers; non-trivial = sequence with a Stop or RemoveInformer after a StartWatches; distinct=(ops)")
 	rapid.Check(t, func(t *rapid.T) {
 		w := newWorld()
+		defer w.cleanup()
 		for _, c := range ctrlNames {
 			w.seedXRs(c, [][]string{{"KindA"}})
 		}
@@ -448,6 +472,7 @@ func TestVerifC13GC(t *testing.T) {
 	rec := verifkit.New(t, "C13", "generated XR sets with resource references and generated running watch sets; oracle: GarbageCollectWatchesNow stops exactly the composed-resource watches whose kind no XR of that controller references; XR, claim and composition-revision watches stay live; non-trivial = both used and unused composed kinds are watched; distinct=(refs,watches)")
 	rapid.Check(t, func(t *rapid.T) {
 		w := newWorld()
+		defer w.cleanup()
 		rec.Eval()
 		ctrl := "c0"
 		nxr := rapid.IntRange(0, 3).Draw(t, "nxr")
@@ -517,6 +542,7 @@ func TestVerifC13Concurrent(t *testing.T) {
 	rec := verifkit.New(t, "C13", "2-4 goroutines x op lists over 2 controllers; every call into the informers/cache/controller fakes is a scheduling point and the schedule is drawn by rapid; oracle at quiescence: no deadlock, running <=> exactly one live controller instance, <=1 live handler per (controller,type,kind), none for stopped controllers, none unlisted; then a sequential epilogue (StartWatches re-establishes, Stop removes everything); built with -race; non-trivial = >=2 goroutines touch the same controller with >=1 StartWatches; distinct=(ops,schedule)")
 	rapid.Check(t, func(t *rapid.T) {
 		w := newWorld()
+		defer w.cleanup()
 		for _, c := range ctrlNames {
 			w.seedXRs(c, [][]string{{"KindA"}})
 		}
